@@ -95,8 +95,8 @@ func (t *tailBuf) Write(p []byte) (int, error) {
 	t.mu.Lock()
 	defer t.mu.Unlock()
 	t.b = append(t.b, p...)
-	if len(t.b) > 64<<10 {
-		t.b = t.b[len(t.b)-(32<<10):]
+	if len(t.b) > 512<<10 {
+		t.b = t.b[len(t.b)-(256<<10):]
 	}
 	return len(p), nil
 }
@@ -187,11 +187,21 @@ func (p *Pool) Close() {
 // found by the controlled scheduler as "no enabled thread"; this clock only guards against what the scheduler cannot
 // see), and only a job that times out twice is reported as dead.
 func (p *Pool) runOne(j Job) JobResult {
+	t0 := time.Now()
+	defer func() {
+		if d := time.Since(t0); d > 20*time.Second && os.Getenv("VERIF_POOLDEBUG") != "" {
+			b, _ := json.Marshal(j)
+			fmt.Fprintf(os.Stderr, "POOL: job took %v: %.300s\n", d, b)
+		}
+	}()
 	r := p.runOnce(j, p.JobTimeout)
 	if r.Died && strings.Contains(r.Error, "timed out") {
 		p.mu.Lock()
 		p.TimeoutRetries++
 		p.mu.Unlock()
+		if os.Getenv("VERIF_POOLDEBUG") != "" {
+			fmt.Fprintf(os.Stderr, "POOL: job timed out (%s), retrying; worker log:\n%s\n", r.Error, r.Log)
+		}
 		r2 := p.runOnce(j, 3*p.JobTimeout)
 		if r2.Died {
 			r2.Error += " (second attempt, three times the limit)"
@@ -241,9 +251,24 @@ func (p *Pool) runOnce(j Job, limit time.Duration) JobResult {
 		return res
 	case <-time.After(limit):
 		// ask for goroutine dump, then kill
+		extra := ""
+		if os.Getenv("VERIF_POOLDEBUG") != "" {
+			pid := w.cmd.Process.Pid
+			if ents, err := os.ReadDir(fmt.Sprintf("/proc/%d/task", pid)); err == nil {
+				for _, e := range ents {
+					wc, _ := os.ReadFile(fmt.Sprintf("/proc/%d/task/%s/wchan", pid, e.Name()))
+					sc, _ := os.ReadFile(fmt.Sprintf("/proc/%d/task/%s/syscall", pid, e.Name()))
+					st, _ := os.ReadFile(fmt.Sprintf("/proc/%d/task/%s/stat", pid, e.Name()))
+					extra += fmt.Sprintf("task %s wchan=%s syscall=%.60s stat=%.60s\n", e.Name(), wc, sc, st)
+				}
+			}
+		}
 		_ = w.cmd.Process.Signal(sigQuit)
-		time.Sleep(300 * time.Millisecond)
-		log := w.stderr.String()
+		time.Sleep(1500 * time.Millisecond)
+		log := extra + w.stderr.String()
+		if os.Getenv("VERIF_POOLDEBUG") != "" {
+			_ = os.WriteFile(fmt.Sprintf("/dev/shm/pooldump-%d.txt", w.cmd.Process.Pid), []byte(log), 0o644)
+		}
 		w.kill()
 		p.mu.Lock()
 		p.Restarts++
